@@ -69,7 +69,7 @@ func (s *Solver) start(name string) *backend {
 	var cmd *exec.Cmd
 	t := strconv.Itoa(s.TimeoutMs)
 	switch name {
-	case "z3":
+	case "z3", "z3bv":
 		cmd = exec.Command("z3", "-in", "-t:"+t)
 	case "z3new":
 		cmd = exec.Command("z3-new", "-in", "-t:"+t)
@@ -90,6 +90,10 @@ func (s *Solver) start(name string) *backend {
 	s.backends[name] = b
 	if strings.HasPrefix(name, "z3") {
 		b.send("(set-option :global-declarations true)")
+		if name == "z3bv" {
+			// pure bit-vector sessions use z3's incremental SAT-based solver (about 3x faster per query)
+			b.send("(set-logic QF_BV)")
+		}
 	} else {
 		b.send("(set-option :global-declarations true)")
 		b.send("(set-logic ALL)")
@@ -207,6 +211,18 @@ func (s *Solver) Push(t *term.Term) { s.Stack = append(s.Stack, t) }
 
 // PopTo truncates the path condition to n conjuncts.
 func (s *Solver) PopTo(n int) { s.Stack = s.Stack[:n] }
+
+func (s *Solver) hasUF(extra *term.Term) bool {
+	if extra != nil && extra.HasUF {
+		return true
+	}
+	for _, t := range s.Stack {
+		if t.HasUF {
+			return true
+		}
+	}
+	return false
+}
 
 func (s *Solver) hasDiv(extra *term.Term) bool {
 	if extra != nil && extra.HasDiv {
@@ -437,7 +453,10 @@ func (s *Solver) Check(extra *term.Term, wantModel bool, assertion bool) (Result
 		}
 		extra = nil
 	}
-	order := []string{"z3", "cvc5int", "cvc5"}
+	order := []string{"z3bv", "z3", "cvc5int", "cvc5"}
+	if s.hasUF(extra) {
+		order = []string{"z3", "cvc5int", "cvc5"}
+	}
 	if s.hasDiv(extra) {
 		order = []string{"cvc5int", "z3", "cvc5"}
 	}
@@ -490,6 +509,7 @@ func (s *Solver) Check(extra *term.Term, wantModel bool, assertion bool) (Result
 		if used == "z3new" {
 			other = "z3"
 		}
+		_ = used
 		if s.hasDiv(extra) && used == "cvc5int" {
 			other = "" // the bit-blasting back ends do not finish on these; no second opinion available
 		}
